@@ -103,12 +103,17 @@ def prepare_unit(name, scratch, with_twins=True, mutate=None, unit=None):
     else:
         U = unit
     ur.unit = U
+    if mutate and len(mutate) == 3:
+        U.mutation = mutate
+        U.mutation_applied = False
     text, linemap = U.generate()
+    if mutate and len(mutate) == 3 and not U.mutation_applied:
+        raise Undecided('mutant target function %s not found in unit' % mutate[0])
     # canary + vacuity twins appended before the closing of verus!{}
     extra = ['', '// ---- liveness canary: this obligation MUST fail', 'proof fn canary__must_fail() ensures false {}']
     close = text.rindex('} // verus!')
     text = text[:close] + '\n'.join(extra) + '\n' + text[close:]
-    if mutate:
+    if mutate and len(mutate) == 2:
         old, new = mutate
         if text.count(old) != 1:
             raise Undecided('mutant anchor %r occurs %d times' % (old, text.count(old)))
